@@ -105,13 +105,54 @@ func Await(cond func() bool, o AwaitOpts) AwaitResult {
 }
 
 // RenderGs renders goroutines for a witness (library and harness goroutines only).
+// Goroutines running a property's own calls come first (they are what is stuck);
+// identical stacks are folded into one line with a count.
 func RenderGs(gs []G) string {
-	var b strings.Builder
+	type ent struct {
+		text  string
+		n     int
+		first int
+		prop  bool
+	}
+	seen := map[string]*ent{}
+	var order []*ent
 	for i := range gs {
 		g := &gs[i]
-		if g.IsMangos() || g.HasFrame("verifharness/") {
-			b.WriteString(g.Short())
-			b.WriteString("\n")
+		if !(g.IsMangos() || g.HasFrame("verifharness/")) {
+			continue
+		}
+		n := len(g.Frames)
+		if n > 7 {
+			n = 7
+		}
+		var fr []string
+		for _, f := range g.Frames[:n] {
+			// "func /path/file.go:123" -> "func file.go:123"
+			if k := strings.LastIndex(f, "/"); k > strings.Index(f, " ") && strings.Index(f, " ") >= 0 {
+				f = f[:strings.Index(f, " ")+1] + f[k+1:]
+			}
+			fr = append(fr, strings.TrimPrefix(f, "go.nanomsg.org/mangos/v3/"))
+		}
+		key := "[" + g.State + "] " + strings.Join(fr, " <- ") + " (created by " + strings.TrimPrefix(g.CreatedBy, "go.nanomsg.org/mangos/v3/") + ")"
+		if e := seen[key]; e != nil {
+			e.n++
+			continue
+		}
+		e := &ent{text: key, n: 1, first: g.ID, prop: g.HasFrame("verifharness/props")}
+		seen[key] = e
+		order = append(order, e)
+	}
+	var b strings.Builder
+	for pass := 0; pass < 2; pass++ {
+		for _, e := range order {
+			if e.prop != (pass == 0) {
+				continue
+			}
+			if e.n > 1 {
+				fmt.Fprintf(&b, "g%d (+%d more) %s\n", e.first, e.n-1, e.text)
+			} else {
+				fmt.Fprintf(&b, "g%d %s\n", e.first, e.text)
+			}
 		}
 	}
 	return b.String()
